@@ -165,6 +165,7 @@ func (dht *IpfsDHT) runQuery(ctx context.Context, target string, queryFn queryFn
   ensures imp(result2 == nil, result0 != nil && result1 != nil && result0.$qp == result1 && qpeerset.wf(result1) && !result1.$has[dht.self])
   ensures imp(result2 == nil, lookupResultOK(result0, result1, dht.bucketSize))
   ghost at before call(run): assert(ctxRoot(q.ctx) == old(ctxRoot(ctx)))
+  ghost at assign(q): q.$out = mapcomp(x, peer.ID, false)
 
 role stopFn(qp *qpeerset.QueryPeerset) bool in (dht *IpfsDHT) runLookupWithFollowup(ctx context.Context, target string, queryFn queryFn, stopFn stopFn) (*lookupWithFollowupResult, error)
   pure
